@@ -116,7 +116,7 @@ func ruleOfRendering(a, b string) string {
 
 func checkC10(o options) int {
 	wall := o.wall
-	canonProcs, canonSessions, pristProcs, pristReps, isoCap := 4, 200, 4, 3, 1200
+	canonProcs, canonSessions, pristProcs, pristReps, isoCap := 4, 400, 4, 3, 3000
 	if o.tier == "thorough" {
 		canonProcs, canonSessions, pristProcs, pristReps, isoCap = 16, 3000, 16, 5, 20000
 		if wall == 0 {
@@ -336,6 +336,13 @@ func checkC10(o options) int {
 		if c := escalatedClass(out); c != "" {
 			class = c
 			seenClass[class] = true
+		}
+		if err != nil && unownedSchedule {
+			// the schedule is not mine: publish what was seen
+			writeJSONFile(rf, map[string]interface{}{"format": "verif-c10-history/unowned", "property": "C10", "class": "disagree-unowned-schedule|" + strings.TrimPrefix(class, "disagree-"), "replayable": false,
+				"note": "a key evaluated alone in a fresh process differs from its in-session result while library code runs goroutines of its own; no deterministic witness could be built", "mismatch": m, "census": census, "verif_seed": o.seed})
+			finals = append(finals, finalV{"disagree-unowned-schedule|" + strings.TrimPrefix(class, "disagree-"), rf, "isolated oracle, schedule not owned", nil, true})
+			continue
 		}
 		if err != nil {
 			die(2, "C10: a key evaluated alone in a fresh process differs from its in-session result, but the witness did not reproduce when replayed (simulator or harness nondeterminism?):\n%s", tail(out, 10))
